@@ -65,3 +65,42 @@ Theorem C09_padded_varint_example :
   /\ dec_varint (enc_varint_n 10 18446744073709551615) = Some (18446744073709551615, []).
 Proof. exact padded_varint_example. Qed.
 Print Assumptions C09_padded_varint_example.
+
+(* ---- whole messages with non-minimal varints ---- *)
+From UV Require Import Codec.Padded.
+
+(* `data_enc its w`: w is a wire form of the presentation `its` in which EVERY varint — each field tag, each length
+   prefix, each integer field, each element of a packed run, and the same inside the timestamp sub-message — is written
+   in any of its valid n-byte forms, chosen independently at every occurrence.  Every such wire form decodes to the
+   logical message of the presentation (or is rejected when the presentation has none) *)
+Theorem C09_decode_padded_presentation : forall its w,
+  data_enc its w ->
+  decode_data w = match logical_data its with Some m => Ok m | None => Err EDecode end.
+Proof. exact decode_padded_presentation. Qed.
+Print Assumptions C09_decode_padded_presentation.
+
+Theorem C09_decode_time_padded : forall its w t,
+  time_enc its w -> logical_time its = Some t -> decode_time w = Ok t.
+Proof. exact decode_time_padded. Qed.
+Print Assumptions C09_decode_time_padded.
+
+(* the minimal wire forms of C09_decode_presentation are instances of the relation *)
+Theorem C09_minimal_is_padded_instance : forall its, Forall wf_ditem its -> data_enc its (wire_data its).
+Proof. exact wire_data_is_enc. Qed.
+Print Assumptions C09_minimal_is_padded_instance.
+
+(* non-vacuity: a message whose tag, integer and length varints are padded to 2-4 bytes *)
+Theorem C09_padded_presentation_example :
+  let w := [136; 128; 0; 130; 0; 152; 0; 133; 128; 128; 0; 18; 130; 128; 0; 7; 9] in
+  data_enc [DType 2; DFileSize 5; DData [7; 9]] w
+  /\ decode_data w = Ok (mk_ud 2 (Some [7; 9]) (Some 5) [] None None None None).
+Proof. exact padded_presentation_example. Qed.
+Print Assumptions C09_padded_presentation_example.
+
+(* UnixFSMetadata: every wire form (mime type anywhere, unknown fields interleaved, any varint widths) decodes to the
+   mime type of the presentation; a repeated mime type is rejected *)
+Theorem C09_decode_metadata_presentation : forall its w,
+  meta_enc its w ->
+  decode_meta w = match apply_mitems None its with Some st => Ok (mk_um st) | None => Err EDecode end.
+Proof. exact decode_meta_presentation. Qed.
+Print Assumptions C09_decode_metadata_presentation.
